@@ -46,6 +46,13 @@ func (t *LegacyPKT) ReadPacket() (n int, p []byte, err error) {
 	p = make([]byte, n)
 	copy(p, buf)
 
+	// a reader may return the last bytes together with the error (the final
+	// chunk and the end of the body in one segment): hand out the bytes first,
+	// the reader reports the error again on the next read
+	if n > 0 {
+		err = nil
+	}
+
 	return n, p, err
 }
 
